@@ -52,6 +52,8 @@ pub fn probes(_tier: &str) -> Vec<String> {
     "probe.damaged_endpoint_rejected",
     "probe.validated_after_expiry",
     "probe.service_type_spelled_as_array",
+    "probe.jpt_twin_revoked",
+    "probe.jpt_twin_not_revoked",
   ]
   .iter()
   .map(|s| (*s).to_owned())
